@@ -4,7 +4,7 @@ import (
 	"fmt"
 	"math"
 	"regexp"
-	"runtime"
+	"runtime/metrics"
 	"sort"
 	"strings"
 	"sync/atomic"
@@ -118,6 +118,7 @@ const stepBudget = 200000
 
 // guarded runs f on a fresh thread in its own goroutine and waits at most d for it.
 func guarded(d time.Duration, f func(th *starlark.Thread) error) callResult {
+	stackBase := stackBytes()
 	ch := make(chan callResult, 1)
 	go func() {
 		th := &starlark.Thread{Name: "c02", Print: func(*starlark.Thread, string) {}}
@@ -142,20 +143,24 @@ func guarded(d time.Duration, f func(th *starlark.Thread) error) callResult {
 		return r
 	case <-time.After(d):
 	}
-	// Not back yet. If goroutine stacks are large and still growing, a runaway recursion is
-	// heading for the fatal stack-overflow: keep waiting so that the crash is attributed to
-	// this input (the write-ahead note still names it). Otherwise abandon the call.
-	var ms runtime.MemStats
-	runtime.ReadMemStats(&ms)
-	prev := ms.StackInuse
-	for i := 0; i < 240 && prev > 48<<20; i++ {
+	// Not back yet. If goroutine stacks have grown a lot since this call started and are still
+	// growing, a runaway recursion is heading for the fatal stack-overflow: keep waiting so that
+	// the crash is attributed to this input (the write-ahead note still names it). Otherwise
+	// abandon the call. (Stacks held by earlier abandoned calls are in the baseline.)
+	prev, still := stackBytes(), 0
+	for i := 0; i < 200 && prev > stackBase+(48<<20) && still < 45; i++ {
 		select {
 		case r := <-ch:
 			return r
 		case <-time.After(time.Second):
 		}
-		runtime.ReadMemStats(&ms)
-		prev = ms.StackInuse
+		cur := stackBytes()
+		if cur == prev {
+			still++
+		} else {
+			still = 0
+		}
+		prev = cur
 	}
 	select {
 	case r := <-ch:
@@ -164,6 +169,16 @@ func guarded(d time.Duration, f func(th *starlark.Thread) error) callResult {
 	}
 	leaked.Add(1)
 	return callResult{outcome: "timeout"}
+}
+
+// stackBytes reads the memory held by goroutine stacks (cheap: no stop-the-world).
+func stackBytes() uint64 {
+	s := []metrics.Sample{{Name: "/memory/classes/heap/stacks:bytes"}}
+	metrics.Read(s)
+	if s[0].Value.Kind() == metrics.KindUint64 {
+		return s[0].Value.Uint64()
+	}
+	return 0
 }
 
 type hookState struct {
